@@ -191,6 +191,7 @@ def struct_unpack(ip, fmt, data):
         raise Unsupported('struct.unpack of a bytearray')
     if ops.pytype(data) != 'bytes':
         ip.ctx.raise_exc('TypeError', 'a bytes-like object is required')
+    data = ops.concretize_bytes(data)
     if isinstance(data, bytes):
         try:
             r = _struct.unpack(fmt, data)
